@@ -351,6 +351,48 @@ def fixed_pairs(ctx, home):
             ctx.violation("breaking-accepted:%s" % name, "fixed pair %s: a documented breaking change is accepted (rc=%s)" % (name, v["rc"]), case)
         else:
             shutil.rmtree(cdir, ignore_errors=True)
+    # an optional replaced by a union that holds its type (and back): the class of the change does not depend on WHERE in the union that type stands, nor on
+    # whether the other cases come before or after it - whatever the verdict is for `T? -> [T, X]`, it is the verdict for `T? -> [X, T]` and `[X, T, Y]`
+    import itertools
+    header = "Header: !record\n  fields:\n    subject: string\n"
+    for tname, t, others in (("int", "int", ["float", "string"]), ("record", "Header", ["string", "int"]), ("vector", "int*", ["string", "float"])):
+        for with_null in (False, True):
+            for direction in ("optional-to-union", "union-to-optional"):
+                for place in ("field", "step"):
+                    verdicts = {}
+                    unions = [list(p) for n in (1, 2) for p in itertools.permutations([t] + others[:n])]
+                    for ui, u in enumerate(unions):
+                        ut = "[%s]" % ", ".join((["null"] if with_null else []) + u)
+                        opt = "[null, %s]" % t
+                        a, b = (opt, ut) if direction == "optional-to-union" else (ut, opt)
+
+                        def text(ty):
+                            if place == "field":
+                                return header + "R: !record\n  fields:\n    f: %s\n    n: int\nP: !protocol\n  sequence:\n    r: R\n" % ty
+                            return header + "P: !protocol\n  sequence:\n    s: %s\n    n: int\n" % ty
+                        cdir = os.path.join(ctx.workdir, "cases", "optunion_%s_%d_%s_%s_%d" % (tname, with_null, direction, place, ui))
+                        shutil.rmtree(cdir, ignore_errors=True)
+                        common.write_tree(cdir, local(text(a), text(b)))
+                        pn = cli.run_cli("validate", os.path.join(cdir, "new"), home)
+                        ctx.ev()
+                        v = verdict(pn)
+                        if v["panic"]:
+                            ctx.violation("panic@%s" % v["panic"], "optional <-> union pair %s -> %s: crash" % (a, b), {"case_dir": cdir})
+                            continue
+                        verdicts[tuple(u)] = ("reject" if v["rc"] != 0 else ("accept-warning" if v["warnings"] else "accept-clean"), cdir)
+                    ctx.case(("optional-union-position", tname, with_null, direction, place))
+                    ctx.count("optional-union-position")
+                    for n in (2, 3):
+                        group = {k: v for k, v in verdicts.items() if len(k) == n}
+                        classes = sorted(set(v[0] for v in group.values()))
+                        if len(classes) > 1:
+                            ex = {c: [k for k, v in group.items() if v[0] == c][0] for c in classes}
+                            ctx.violation("verdict-depends-on-case-position:%s:%s" % (direction, "with-null" if with_null else "without-null"),
+                                          "%s of %s as a %s: unions of the same %d types %s give different verdicts depending on where %s stands: %s" % (
+                                              direction, t, place, n, "(and null)" if with_null else "", t, {c: list(k) for c, k in ex.items()}), {"cases": {c: group[k][1] for c, k in ex.items()}})
+                    if not ctx.violations:
+                        for _, cdir in verdicts.values():
+                            shutil.rmtree(cdir, ignore_errors=True)
     watched_verdicts(ctx, home, cases)
 
 
